@@ -141,7 +141,10 @@ def shrink(mod, rec, kind, procs, budget=400):
     improved = True
     while improved and tried < budget:
         improved = False
-        cands = list(mod.shrink(best["case"]))[:60]
+        try:
+            cands = list(mod.shrink(best["case"]))[:60]
+        except Exception:  # noqa - a shrinker that does not know this case kind must not turn a verdict into a machinery error
+            cands = []
         if not cands:
             break
         tried += len(cands)
